@@ -164,6 +164,8 @@ EQ = os.path.join(HERE, "equiv")
 
 # behaviour-preserving refactors: every listed check must stay SILENT (exit 0) on them — a check that fires here is a false alarm
 EQUIV = [
+    ("eq-sqlite-restore-reorder", ["C09", "C12", "C19", "C10"], [os.path.join(EQ, "sqlite_restore_reorder.diff")], []),
+    ("eq-sqlite-restore-format-sql", ["C09", "C12"], [os.path.join(EQ, "sqlite_restore_format.diff")], []),
     ("eq-memory-restore-reorder", ["C09", "C08", "C10", "C19", "C06"], [os.path.join(EQ, "memory_restore_reorder.diff")], []),
     ("eq-media-refactor", ["C17", "C06", "C14"], [os.path.join(EQ, "media_refactor.diff")], []),
     ("eq-authorization-loops", ["C05", "C06", "C04"], [os.path.join(EQ, "authorization_loops.diff")], []),
